@@ -90,6 +90,9 @@ class Session:
             out.injected = inj.fired
             out.fired_at = inj.fired_at
             self.total_lines += inj.count
+            if inj.fired and out.exc is not None:
+                from .faults import settle
+                settle(out.exc)  # see there: finalisation of whatever the abort left suspended, inside the step
         out.exc_type = classify(self.rt, out.exc) if not out.injected else "injected"
         if op["op"] == "set_limits" and out.ok:
             from .geom import dec as _dec
